@@ -25,7 +25,7 @@ from vplib import common
 from vplib import commitlib as cl
 from vplib import strace as st
 
-KNOWN_SLUGS = {1: "upgrade-declaration-fault", 2: "staged-declaration-fault", 3: "cleanup-rmdir-fault"}
+KNOWN_SLUGS = {1: "upgrade-declaration-fault"}
 
 
 def judge(o):
@@ -51,13 +51,9 @@ def direct_known(o):
         return 0
     p = hit[1]
     base = os.path.basename(p)
-    if base.startswith("0=ocfl_object_") and hit[0] in ("createnew", "write", "unlink"):
-        staged = "/rocfl-staging/" in p or p.startswith("~/stg/")
-        if not staged:
-            return 1
-        return 2 if not o["installed_before"] else 0
-    if hit[0] == "rmdir" and not o["installed_before"] and ("/rocfl-staging/" in p or p.startswith("~/stg/")) and "/content/" in p + "/":
-        return 3
+    staged = "/rocfl-staging/" in p or p.startswith("~/stg/")
+    if base.startswith("0=ocfl_object_") and hit[0] in ("createnew", "write", "unlink") and not staged:
+        return 1
     return 0
 
 
@@ -123,7 +119,7 @@ def evaluate(ctx, recs, outs, env, stats):
                           "model": (p[o["kind"]][midx] if midx is not None else None)})
         if verdict:
             tags = {t for t, _ in verdict}
-            allowed = {1: {"state", "status", "reset", "wedged"}, 2: {"retry-invalid"}, 3: {"retry-invalid"}}.get(kc, set())
+            allowed = {1: {"state", "status", "reset", "wedged"}}.get(kc, set())
             slug = KNOWN_SLUGS.get(kc)
             if slug and tags <= allowed and (not registered or slug in registered):
                 ctx.known_hit(slug)
